@@ -29,7 +29,9 @@ finally:
 ok = "430 passed" in meta["tests_with_change"] and meta["demo_exit_with_change"] == 1 and meta["demo_exit_clean"] == 0
 meta["confirmed"] = ok
 print("confirmed:", ok, meta["tests_with_change"], meta["demo_exit_with_change"], meta["demo_exit_clean"])
-if ok:
+official = "--official" in sys.argv
+if ok and official:
+    # the brief's procedure: apply to /repo itself, run the checks, undo straight afterwards
     assert sh("git -C /repo status --porcelain -- rich").stdout.strip() == "", "/repo dirty"
     r = sh("git -C /repo apply %s" % patch); assert r.returncode == 0, r.stderr
     try:
@@ -43,6 +45,24 @@ if ok:
             print(p, "exit", c.returncode, [l[:160] for l in lines][:6])
     finally:
         sh("git -C /repo checkout -- .")
+    meta["detected_by"] = [p for p, v in meta["checks"].items() if v["exit"] == 1]
+elif ok:
+    # development mode: the same check, pointed at a scratch worktree that carries the change (VF_REPO)
+    wt2 = wt + "_chk"
+    sh("git -C /repo worktree remove --force %s" % wt2)
+    r = sh("git -C /repo worktree add %s HEAD" % wt2); assert r.returncode == 0, r.stderr
+    try:
+        r = sh("git -C %s apply %s" % (wt2, patch)); assert r.returncode == 0, r.stderr
+        meta["checks"] = {}
+        for p in props:
+            t0 = time.time()
+            c = sh("cd /verif && VF_REPO=%s VF_JOBS=6 ./check %s --tier %s --no-evidence" % (wt2, p, tier), timeout=7200)
+            lines = [l for l in c.stdout.splitlines() if l.startswith(("VIOLATION", "SUMMARY", "REFUTED"))]
+            meta["checks"][p] = {"exit": c.returncode, "wall_s": round(time.time() - t0), "lines": [l[:300] for l in lines][:12]}
+            meta["ran"].append("worktree with patch.diff applied; VF_REPO=<worktree> ./check %s --tier %s" % (p, tier))
+            print(p, "exit", c.returncode, [l[:160] for l in lines][:6])
+    finally:
+        sh("git -C /repo worktree remove --force %s" % wt2)
     meta["detected_by"] = [p for p, v in meta["checks"].items() if v["exit"] == 1]
 dst = "/verif/seeded/%s-%s" % (pid, n)
 if ok:
